@@ -263,6 +263,8 @@ def run(F, rep, tier):
     mirror_rule(F, rep)
     unary_dispatch_rule(F, rep)
     list_polarity_rule(F, rep)
+    from props import c09_fold
+    c09_fold.run(F, rep)
 
 
 def between_form(F, rep, rid, k):
